@@ -689,4 +689,28 @@ theorem World.clone_view_new (c : Source → Bool) (w : World) (e : Nat) (h : w.
   rw [regView_clone _ _ _ (h4 ▸ he), regView_clone _ _ _ (h5 ▸ he), regView_clone _ _ _ (h6 ▸ he)]
   simp [h4, h5, h6]
 
+/-! ### state identity -/
+
+def IdSys.Inv (s : IdSys) : Prop := s.created.map (·.2) = List.range s.next
+
+theorem IdSys.init_inv : IdSys.init.Inv := rfl
+
+theorem IdSys.newState_inv (s : IdSys) (t : Nat) (h : s.Inv) : (s.newState t).Inv := by
+  unfold IdSys.Inv at h ⊢
+  simp [IdSys.newState, List.map_append, h, List.range_succ]
+
+theorem IdSys.run_inv (ts : List Nat) : ∀ s : IdSys, s.Inv → (s.run ts).Inv := by
+  induction ts with
+  | nil => intro s h; exact h
+  | cons t ts ih => intro s h; exact ih _ (IdSys.newState_inv s t h)
+
+/-- the `p`-th state ever created has id `p`, whichever thread created it -/
+theorem IdSys.id_eq_index (s : IdSys) (h : s.Inv) {p t i : Nat} (hp : s.created[p]? = some (t, i)) :
+    i = p := by
+  have h1 : (s.created.map (·.2))[p]? = some i := by simp [List.getElem?_map, hp]
+  rw [h] at h1
+  have h2 := List.getElem?_eq_some_iff.mp h1
+  obtain ⟨_, h3⟩ := h2
+  simpa using h3.symm
+
 end MJ.Store
